@@ -7,7 +7,7 @@
 #include <string.h>
 
 #define SKV_MAXBLK 4096
-typedef struct { void *p; size_t n; unsigned long id; } blk_t;
+typedef struct { void *p; size_t n; unsigned long id; void *base; } blk_t;
 static blk_t live[SKV_MAXBLK];
 static int nlive;
 static unsigned long requests, fail_at, next_id;
@@ -15,6 +15,11 @@ static unsigned long ev_double, ev_foreign, ev_nonzero, ev_frees, ev_failed;
 static size_t nonzero_first_off, nonzero_bytes, last_free_size;
 static void *freed[64]; static int nfreed;
 static int check_zero_on_free = 1;
+/* placement of the blocks handed to the library: 0 = whatever the allocator gives, 1 = always 16 mod 32
+   (the worst case for code that wants 32-byte alignment), 2 = always 32-byte aligned.  Deterministic, so that a
+   failure that depends on the alignment of a block replays. */
+static int align_mode;
+void skv_mon_align_mode(int m) { align_mode = m; }
 
 void skv_mon_reset(void) {
     /* blocks still live are the library's leak; forget them (they are reported by skv_mon_live first) */
@@ -51,20 +56,28 @@ size_t skv_mon_block_nonzero(const void *inner, size_t *size, size_t *tail_nonze
     return 0;
 }
 
-static void *track(void *p, size_t n) {
-    if (p && nlive < SKV_MAXBLK) { live[nlive].p = p; live[nlive].n = n; live[nlive].id = ++next_id; ++nlive; }
+static void *track(void *base, size_t n) {
+    void *p = base;
+    if (!base) return 0;
+    if (align_mode) {
+        uintptr_t a = ((uintptr_t)base + 31) & ~(uintptr_t)31;
+        if (align_mode == 1) a += 16;
+        p = (void *)a;
+    }
+    if (nlive < SKV_MAXBLK) { live[nlive].p = p; live[nlive].n = n; live[nlive].id = ++next_id; live[nlive].base = base; ++nlive; }
     return p;
 }
+static size_t pad(void) { return align_mode ? 64 : 0; }
 static int should_fail(void) {
     ++requests;
     if (fail_at && requests == fail_at) { ++ev_failed; return 1; }
     return 0;
 }
-void *skv_calloc(size_t a, size_t b) { if (should_fail()) return 0; return track(calloc(a, b), a * b); }
+void *skv_calloc(size_t a, size_t b) { if (should_fail()) return 0; return track(calloc(1, a * b + pad()), a * b); }
 void *skv_malloc(size_t n) {
     if (should_fail()) return 0;
-    void *p = malloc(n);
-    if (p) memset(p, 0xA7, n);   /* malloc'd memory is never zero by luck */
+    void *p = malloc(n + pad());
+    if (p) memset(p, 0xA7, n + pad());   /* malloc'd memory is never zero by luck */
     return track(p, n);
 }
 void skv_free(void *p) {
@@ -80,8 +93,9 @@ void skv_free(void *p) {
                 if (c) { if (!ev_nonzero) { nonzero_first_off = first; nonzero_bytes = c; } ++ev_nonzero; }
             }
             if (nfreed < 64) freed[nfreed++] = p;
+            void *base = live[i].base;
             live[i] = live[--nlive];
-            free(p);
+            free(base);
             return;
         }
     }
@@ -92,8 +106,11 @@ void *skv_realloc(void *p, size_t n) {
     if (!p) return skv_malloc(n);
     if (should_fail()) return 0;
     for (int i = 0; i < nlive; ++i) if (live[i].p == p) {
-        void *q = realloc(p, n);
-        if (q) { live[i].p = q; live[i].n = n; }
+        void *q = skv_malloc(n);
+        if (!q) return 0;
+        memcpy(q, p, live[i].n < n ? live[i].n : n);
+        --requests;
+        skv_free(p);
         return q;
     }
     ++ev_foreign;
